@@ -125,18 +125,20 @@ def _run_race(case: dict) -> Outcome:
 
 
 def _hist_strategy():
-    node = st.sampled_from((5, 6, 6, 7, 8))
+    node = st.sampled_from((1, 11, 11, 7, 2))
 
     def retarget(m, n):
         return [n] + m[1:]
 
     send = st.builds(lambda m, n, b: ["send", retarget(m, n), b], gen.wellformed_message(), node, st.sampled_from((None, None, True, False)))
-    send_set = st.builds(lambda n, c, t, v, b: ["send", [n, c, 1, 0, t, v], b], node, st.sampled_from((0, 1)), st.sampled_from((0, 2)), st.one_of(st.sampled_from(("0", "1", "1", "0")), gen.short_payloads), st.sampled_from((None, None, False)))
+    send_set = st.builds(lambda n, c, t, v, b: ["send", [n, c, 1, 0, t, v], b], node, st.sampled_from((1, 2, 12)), st.sampled_from((3, 23)), st.one_of(st.sampled_from(("0", "1", "1", "0")), gen.short_payloads), st.sampled_from((None, None, False)))
+    send_internal = st.builds(lambda n, t, p, b: ["send", [n, 255, 3, 0, t, p], b], node, st.sampled_from((19, 19, 13, 18, 24, 4)), st.sampled_from(("", "1")), st.sampled_from((None, None, True, False)))
     wake = st.builds(lambda n, t: ["rx", f"{n};255;3;0;{t};7\n"], node, st.sampled_from((22, 32)))
     other = st.one_of(
         st.builds(lambda n: ["rx", f"{n};255;0;0;17;2.0\n"], node),
-        st.builds(lambda n, c: ["rx", f"{n};{c};0;0;3;relay\n"], node, st.sampled_from((0, 1))),
-        st.builds(lambda n, c, t, v: ["rx", f"{n};{c};1;0;{t};{v}\n"], node, st.sampled_from((0, 1)), st.sampled_from((0, 2)), st.sampled_from(("0", "1"))),
+        st.builds(lambda n, c: ["rx", f"{n};{c};0;0;3;relay\n"], node, st.sampled_from((1, 2, 12))),
+        st.builds(lambda n, c, t, v: ["rx", f"{n};{c};1;0;{t};{v}\n"], node, st.sampled_from((1, 2, 12, 9)), st.sampled_from((3, 23)), st.sampled_from(("0", "1"))),
+        st.builds(lambda n, c, t: ["rx", f"{n};{c};2;0;{t};\n"], node, st.sampled_from((1, 2, 12, 9)), st.sampled_from((3, 23))),
         st.builds(lambda n: ["rx", f"{n};255;3;0;0;50\n"], node),
         st.sampled_from((["rx", "0;255;3;0;9;log\n"], ["rx", "junk\n"], ["rx", "0;255;3;0;2;2.2.0\n"])),
     )
@@ -144,7 +146,7 @@ def _hist_strategy():
         {
             "kind": st.just("hist"),
             "version": gen.versions_any,
-            "ops": st.lists(gen.weighted((4, send), (3, send_set), (2, wake), (2, other)), min_size=6, max_size=25),
+            "ops": st.lists(gen.weighted((4, send), (3, send_set), (2, send_internal), (2, wake), (3, other)), min_size=6, max_size=25),
         }
     )
 
@@ -155,9 +157,9 @@ def _run_hist(case: dict) -> Outcome:
 
     async def go() -> Outcome | None:
         gateway, transport = env.make_gateway(case["version"])
-        env.install_registry(gateway.nodes, {"5": {"children": {"0": {"child_type": 3}}},
-                                            "6": {"sleeping": True, "children": {"0": {"child_type": 3, "values": {"0": "1", "2": "0"}}, "1": {"child_type": 3}}},
-                                            "8": {"sleeping": True, "children": {"0": {"child_type": 3, "values": {"2": "1"}}}}})
+        env.install_registry(gateway.nodes, {"1": {"children": {"1": {"child_type": 3}}},
+                                            "11": {"sleeping": True, "children": {"1": {"child_type": 3, "values": {"3": "1", "23": "0"}}, "2": {"child_type": 3}, "12": {"child_type": 3}}},
+                                            "2": {"sleeping": True, "children": {"1": {"child_type": 3, "values": {"23": "1"}}}}})
         owed: dict[int, dict] = {}  # node -> {key: line}; set commands keep the latest per (child, type)
 
         async def expect_release(node: int, wrote: list[str], where: str) -> Outcome | None:
